@@ -61,6 +61,8 @@ def plan(tier, seed):
     n = 700 if tier == 'quick' else 8000
     for i in range(5):
         shards.append({'name': 'nb_%d' % i, 'kind': 'nb', 'n': n, 'seed': seed * 1000 + 30 + i})
+    shards.append({'name': 'seq', 'kind': 'seq', 'n': 300 if tier == 'quick' else 4000,
+                   'seed': seed * 1000 + 38})
     shards.append({'name': 'one', 'kind': 'one', 'n': 3000 if tier == 'quick' else 40000,
                    'seed': seed * 1000 + 39})
     return shards
@@ -163,6 +165,16 @@ def materialise(case):
 
 def run_case(case, rec, ssj=None, ev=None):
     ssj = ssj or env.load()
+    if case['gen'] == 'seq':
+        from rv.checks import seq
+
+        def judge(df, call, rec_, step):
+            st = oracle.check_edit_join(df, call, rec_, DECIDE, oracle.EditView(call),
+                                        case=dict(case, step=step), tag='[sequence step %d] ' % step)
+            for k, v in st.items():
+                rec_.count(k, v)
+        seq.run_sequence(ssj, random.Random(case['seed']), rec, judge, edit=True)
+        return {'required': 1}
     call = materialise(case)
     try:
         df = T.exec_call(ssj, call)
@@ -208,6 +220,13 @@ def run_shard(shard, rec):
                         'strings_per_side': len(universe(cfg['alpha'], cfg['maxlen'])),
                         'q': cfg['q'], 'padding': cfg['padding'], 'return_set': cfg['return_set'],
                         'thresholds': cfg['ks']}, limit=1)
+    elif kind == 'seq':
+        for i in range(shard['n']):
+            sd = shard['seed'] * 100000 + i
+            run_case({'gen': 'seq', 'seed': sd}, rec, ssj)
+            rec.case(sig=('seq', sd), nontrivial=True)
+        rec.sample({'workload': 'SEQ', 'note': 'edit-distance joins in one process with q and padding '
+                    'changed through the setters of one shared tokenizer object'}, limit=1)
     elif kind in ('nb', 'one'):
         for i in range(shard['n']):
             case = {'gen': kind, 'seed': shard['seed'] * 100000 + i}
